@@ -648,6 +648,38 @@ def classify(sc, r, what=None):
 
 
 def check_scenarios(ctx, res, scenarios, origin, parallel=12):
+    """The oracles of the process-level scenarios are wall-clock bounds: an alarm of the parallel batch is confirmed by
+    running that scenario again with one neighbour at most before it is reported (a real defect shows again, a bound missed
+    on a busy machine does not)."""
+    first = common.Result()
+    _check_scenarios(ctx, first, scenarios, origin, parallel)
+    alarms = [v for v in first.violations + first.mismatches if v.get("finding") is None and isinstance(v.get("case"), dict) and "scenario" in v["case"]]
+    if alarms and origin != "replay" and len(scenarios) > 2:
+        again_sc = []
+        for v in alarms:
+            if v["case"]["scenario"] not in again_sc:
+                again_sc.append(v["case"]["scenario"])
+        again_sc = again_sc[:6]
+        rerun = [json.dumps(sc, sort_keys=True) for sc in again_sc]
+        again = common.Result()
+        _check_scenarios(ctx, again, again_sc, origin + "-confirm", parallel=2)
+        bad_again = {json.dumps(v["case"]["scenario"], sort_keys=True) for v in again.violations + again.mismatches
+                     if isinstance(v.get("case"), dict) and "scenario" in v["case"]}
+
+        def keep(v):
+            if v.get("finding") is not None or not isinstance(v.get("case"), dict) or "scenario" not in v["case"]:
+                return True
+            k = json.dumps(v["case"]["scenario"], sort_keys=True)
+            return k not in rerun or k in bad_again
+        dropped = sum(1 for v in first.violations + first.mismatches if not keep(v))
+        first.violations = [v for v in first.violations if keep(v)]
+        first.mismatches = [v for v in first.mismatches if keep(v)]
+        first.stat("process_alarms_of_the_parallel_batch_not_confirmed_alone", dropped)
+        first.evaluations += again.evaluations
+    common.merge_results(res, first)
+
+
+def _check_scenarios(ctx, res, scenarios, origin, parallel=12):
     become_subreaper()
     runs = [ScenarioRun(sc, i) for i, sc in enumerate(scenarios)]
     pending = list(runs)
